@@ -58,3 +58,8 @@ TABLE["C07"] = dict(engine="simworld", technique="property-based testing: Hypoth
 TABLE["C04"] = dict(engine="simworld", technique="property-based testing: Hypothesis-generated payloads (text, files around record boundaries, directory trees with empty dirs and odd names) and fault points (cut/flip of the data stream on the selected link, lost or altered acknowledgement) through the real CLI send()/receive() in the simulated world; oracle = success implies byte-exact tree, fault implies no success claim and no final file",
     text="The real cmd_send.send and cmd_receive.receive run end to end (real mailbox server, real Transit, real temporary directories); faults are applied to the selected transit link once both ends are in records state, and to the receiver's acknowledgement record before encryption.",
     note=SIM_NOTE + " Permissions/mtimes are not compared.")
+
+DIL_NOTE = SIM_NOTE + " Dilation runs over the simulated TCP network; Noise is noiseprotocol if importable, else the /verif shim (self-tested by setup)."
+TABLE["C10"] = dict(engine="simworld", technique="property-based testing: Hypothesis-generated subchannel operation histories (open/write/close on several subchannels, both directions, listeners early or late) interleaved by a tape with kills of the selected link at arbitrary byte positions; per-subchannel sequence-equality oracle checked after every step and at quiescence",
+    text="Two real dilated wormholes end to end (Manager, Connector, L2 protocol with Noise, Inbound/Outbound, subchannels); the link in use is killed 0-5 times per case with the two sides noticing independently, writes are issued also while disconnected; the oracle compares what each application end received with what the other end wrote, write boundary by write boundary.",
+    note=DIL_NOTE)
